@@ -886,6 +886,12 @@ func postprocessASAACL(c *cmd) {
 func postprocessACLParts(c *cmd, parts []string) {
 	proto := ""
 
+	need := func(n int) {
+		if len(parts) < n {
+			errlog.Abort("Incomplete ACL line: %s", c.orig)
+		}
+	}
+
 	convNamed := func(m map[string]int) {
 		if len(parts) > 0 {
 			if num, found := m[parts[0]]; found {
@@ -903,16 +909,19 @@ func postprocessACLParts(c *cmd, parts []string) {
 		}
 	}
 	convObjectGroup := func() {
+		need(2)
 		name := parts[1]
 		parts[1] = "$REF"
 		c.ref = append(c.ref, name)
 		parts = parts[2:]
 	}
 	convProto := func() {
+		need(1)
 		switch parts[0] {
 		case "object-group":
 			convObjectGroup()
 		case "object":
+			need(2)
 			parts = parts[2:]
 		default:
 			if name, found := protoNonNumeric[parts[0]]; found {
@@ -941,6 +950,7 @@ func postprocessACLParts(c *cmd, parts []string) {
 				convNamed(logNames)
 			case "host", "object", "object-group-security", "object-group-user",
 				"security-group", "user", "user-group":
+				need(2)
 				parts = parts[2:]
 			case "any", "any4", "any6", "interface":
 				parts = parts[1:]
